@@ -186,6 +186,35 @@ CHECKS = {
         technique="TLA+ specs (Stream liveness, HeaderRes) model-checked + structure-aware fault enumeration on the real reader under resource limits",
         design_ref="3.4, 4 C05",
     ),
+    "C06": dict(
+        level="model_checking",
+        text="Header.tla defines Sem(L), the format's assignment of substreams, CRCs and kinds to the members of a layout L, and "
+             "ReaderAlgo(L), the transcription of py7zr's cursor over folders/streams with its SubStreamsInfo defaults and kind "
+             "derivation; TLC checks ReaderAlgo = Sem for EVERY layout within the bounds (<= 3 files and 2 folders quick, 4 and 3 "
+             "thorough; folders without streams; CRC at substream / folder / none; NumUnpackStream and SubStreamsInfo omitted; "
+             "attributes undefined), with the attribute-only directory test as negative control. Every layout TLC emits (sampled "
+             "in quick) is written by the independent reference writer with real coders and further physical choices by seed "
+             "(coder chain per folder, packed CRCs, packpos > 0, kDummy, EmptyFile vector, partial time/attribute vectors, "
+             "non-minimal NUMBERs, raw/LZMA/AES header), read by py7zr and validated by TLC (TraceHeader) against Sem(L) incl. "
+             "bytes, timestamps, attributes; the 62 third-party fixtures are compared member by member with the reference reader.",
+        note="Trusted: TLC, harness/refcodec (self-tested against the fixtures). Coder order inside a folder follows the 7-Zip convention.",
+        technique="TLA+ spec (Header) exhaustively model-checked + TLC-enumerated layouts written by an independent writer and read by the code + trace validation (TraceHeader)",
+        design_ref="3.2, 4 C06",
+    ),
+    "C07": dict(
+        level="model_checking",
+        text="HeaderGrammar.tla is the 7z header grammar as a state machine with the count agreements between sections (packed "
+             "streams / folders / coder out-streams / substreams / files / empty-stream and empty-file vectors / exact property "
+             "sizes). Archives written by py7zr (every accepted chain, raw/encoded/encrypted header, password, directories, zero-"
+             "length files, symlinks, trees, 2-3 append sessions with different chains) are parsed by the independent reference "
+             "reader in strict mode (signature header describes the bytes on disk, packed sizes tile the data area, sizes and CRCs "
+             "equal the content) and decoded with its own codec glue and 7zAES key derivation; TLC validates each token stream "
+             "against the grammar and the recovered members against what was written.",
+        note="Trusted: TLC, harness/refcodec. Bytes after the header (left by a shrinking append) are ignored. A zero-length file stored "
+             "as a zero-length stream is accepted (legal, unusual).",
+        technique="TLA+ grammar spec (HeaderGrammar) + trace validation of token streams produced by an independent strict reader",
+        design_ref="3.2, 4 C07",
+    ),
 }
 
 NOT_YET = {}  # id -> reason; filled below for every property without a check
